@@ -657,3 +657,19 @@ fn count_wildcard_suffix_len(
 
     suffix_len
 }
+
+#[cfg(feature = "verif-hooks")]
+pub(crate) mod verif_local {
+    use super::*;
+
+    /// `count_wildcard_suffix_len` on the sub-patterns of a tuple pattern.
+    pub(crate) fn wildcard_suffix_len(
+        context: &RewriteContext<'_>,
+        pats: &[ptr::P<ast::Pat>],
+        span: Span,
+        shape: Shape,
+    ) -> usize {
+        let pat_vec: Vec<_> = pats.iter().map(TuplePatField::Pat).collect();
+        count_wildcard_suffix_len(context, &pat_vec, span, shape)
+    }
+}
